@@ -430,7 +430,8 @@ theorem range_get_sound (c : Cfg) (s : BState) (recs : List Rec) (hst : StoreAbs
     | some x =>
       have hx := hst.newest x (visible_some_mem hv).1
       by_cases ht : isTomb x.val = true
-      · simp [readOne, ht]
+      · -- a deleted key: the header is raised to the deletion's revision, which is not above the committed one
+        simp [readOne, ht, Nat.max_eq_left hx]
       · simp [readOne, ht, Nat.max_eq_left hx]
   refine ⟨_, hshim, ?_⟩
   rw [href]
